@@ -417,11 +417,30 @@ def install(ctx, numqi):
                            'stiefel_point': M, 'rho': rho}
             if loss is None or not ctx.check(math.isfinite(loss), f'model/{kind}/loss-not-finite', f'{kind} model: loss is not finite', wit):
                 return
+            # conditioning of the parameter point (independent of the chart's answer): the polar / qr charts orthonormalise the
+            # (ensemble x rank) parameter matrix, their rounding error grows with the condition number of its Gram matrix
+            slack = 0.0
+            try:
+                st = getattr(mod, stiefel_attr)
+                th = to_numpy(st.theta).astype(np.float64)
+                if getattr(st, 'batch_size', None) is None and st.method in ('polar', 'qr') and st.rank >= 2:
+                    A = th.reshape(2, st.dim, st.rank) if th.size == 2 * st.dim * st.rank else th.reshape(1, st.dim, st.rank)
+                    A = A[0] + (1j * A[1] if A.shape[0] == 2 else 0)
+                    ev = np.linalg.eigvalsh(A.conj().T @ A)
+                    kappa = float(ev[-1] / max(ev[0], 1e-300))
+                    up('largest_parameter_gram_condition_number', kappa)
+                    if kappa > 1e11:
+                        ctx.inconclusive(f'model/{kind}/parameter-matrix-numerically-rank-deficient')
+                        return
+                    slack = 200 * 2.3e-16 * kappa
+            except Exception:
+                ctx.harness_error(f'model/{kind}/conditioning-estimate')
+                return
             # (a) the ensemble is a genuine decomposition of the ghost state
             psis = T2.ensemble(S, M)
             err = float(np.abs(T2.ensemble_state(psis) - rho).max())
             up(f'decomposition_err/{kind}', err)
-            ok = ctx.check(err <= 1e-6, f'model/{kind}/decomposition-not-genuine',
+            ok = ctx.check(err <= 1e-6 + slack, f'model/{kind}/decomposition-not-genuine',
                            f'{kind} model: sum_i |psi_i><psi_i| rebuilt from the Stiefel point and the stored square root is not the '
                            'density matrix that was set', lambda: dict(wit(), rebuild_error=err,
                                                                        stiefel_orthonormality_error=float(np.abs(M.conj().T @ M - np.eye(M.shape[1])).max()),
@@ -438,20 +457,20 @@ def install(ctx, numqi):
                 lower = val
             tolv = 1e-6 if kind == 'concurrence' else 1e-8
             up(f'loss_minus_reference_functional/{kind}', abs(loss - val))
-            ctx.check(abs(loss - val) <= tolv * (1 + abs(val)), f'model/{kind}/loss-is-not-the-ensemble-average',
+            ctx.check(abs(loss - val) <= tolv * (1 + abs(val)) + 10 * slack, f'model/{kind}/loss-is-not-the-ensemble-average',
                       f'{kind} model: loss differs from the ensemble average recomputed by the reference from the same ensemble',
                       lambda: dict(wit(), reference=val))
             if sign != 1 or not ok:
                 return
             if kind == 'gme':
-                ctx.check(loss >= lower - 1e-9, 'model/gme/overlap-exceeds-schmidt-bound',
+                ctx.check(loss >= lower - 1e-9 - 10 * slack, 'model/gme/overlap-exceeds-schmidt-bound',
                           'gme model: loss below sum_i p_i (1 - largest Schmidt coefficient^2)', lambda: dict(wit(), bound=lower))
             # (c) upper-bound property on two qubits
             if dims == (2, 2):
                 cf = T2.closed_form(rho, kind)
                 margin = loss - cf
                 up(f'min_loss_minus_closed_form/{kind}', margin, 'min')
-                ctx.check(margin >= -BOUND_SLACK, f'model/loss-below-closed-form/{kind}',
+                ctx.check(margin >= -(BOUND_SLACK + 10 * slack), f'model/loss-below-closed-form/{kind}',
                           f'{kind} model: loss is below the closed-form value of the state by more than 1e-7',
                           lambda: dict(wit(), closed_form=cf, margin=margin), point=f'model/{kind}/bound')
         return post
@@ -907,6 +926,32 @@ def run(ctx, shard):
                         numqi.optimize.set_model_flat_parameter(model, theta)
                         ctx.workload('random')
                         ctx.case('model', kind, cfg, rho, theta, nontrivial=nontrivial(rho) and (ent or n_ens > rank))
+                        with torch.no_grad():
+                            model()
+                        # evaluation modes: with autograd recording, and with frozen parameters (requires_grad_(False), how a trained
+                        # model is evaluated): the value must be the same decomposition in every mode
+                        if rep == 0:
+                            ctx.hit('model/evaluation-modes')
+                            model()
+                            for prm in model.parameters():
+                                prm.requires_grad_(False)
+                            try:
+                                model()
+                            finally:
+                                for prm in model.parameters():
+                                    prm.requires_grad_(True)
+                # numerical regime: a parameter matrix that is nearly (not exactly) rank deficient - one column almost a copy of another
+                stf = [x for x in model.modules() if isinstance(x, numqi.manifold.Stiefel)]
+                if stf and stf[0].rank >= 2 and stf[0].theta.numel() == 2 * stf[0].dim * stf[0].rank:
+                    for delta in (1e-2, 1e-4):
+                        numqi.optimize.set_model_flat_parameter(model, rng.normal(size=nparam))
+                        mat = rng.normal(size=(2, stf[0].dim, stf[0].rank))
+                        mat[:, :, -1] = mat[:, :, 0] + delta * mat[:, :, -1]
+                        with torch.no_grad():
+                            stf[0].theta.copy_(torch.tensor(mat.reshape(-1), dtype=stf[0].theta.dtype))
+                        ctx.workload('corner')
+                        ctx.hit('model/nearly-rank-deficient-parameters')
+                        ctx.case('model-illcond', kind, cfg, rho, mat, nontrivial=nontrivial(rho))
                         with torch.no_grad():
                             model()
                 if nsample[0] < 6 and rng.random() < 0.15:
